@@ -1031,9 +1031,13 @@ def hygiene_rules(model: Model, fc: FnCls, prop: str, min_copies: int = 1, min_o
     RO = RuleResult(prop, "OPT", "backward options: set_default_option(forward options, bck_options); caller's dict never mutated", min_instances=min_opt)
     ac9_connected_copies(fc, R9)
     option_hygiene(model, fc, RO)
+    if fc.name in MERGING_CLASSES:
+        from ..props.c18 import merge_semantics
+        merge_semantics(model, RO)      # the merge helper itself: fresh dict, caller's options win, arguments untouched
     RC = RuleResult(prop, "AC4c", "None -> zeros conversion is shaped like the very list the gradients were taken w.r.t.", min_instances=min_conv)
     RX = RuleResult(prop, "AC10", "the explicit-parameter count slices only lists in the full argument space (never tensor-only lists)", min_instances=min_idx)
-    ac4_conversion_reference(fc, RC)
+    if ac4_conversion_reference(fc, RC):
+        zero_filler(model, RC)
     ac10_index_space(fc, RX)
     out = [R9, RO, RC, RX]
     R11 = RuleResult(prop, "AC11", "every exit of the public functional returns the Function's output; forward's solution comes only from the dispatched implementation; operands unchanged", min_instances=2)
@@ -1048,6 +1052,39 @@ def hygiene_rules(model: Model, fc: FnCls, prop: str, min_copies: int = 1, min_o
 
 
 # ---------------------------------------------------------------------------------------------------- AC4c / AC10
+def zero_filler(model: Model, R: RuleResult):
+    """convert_none_grads_to_zeros replaces a None gradient by zeros that have the *shape, dtype and device* of the tensor the gradient
+    belongs to (zeros_like, or an explicit constructor carrying all three) and passes every other gradient through unchanged.  A
+    filler of another dtype silently changes the working precision of whatever consumes the list (the backward quadrature / ODE
+    take their dtype from it)."""
+    f = model.func("xitorch/_utils/tensor.py", "convert_none_grads_to_zeros")
+    g, inp = f.params()[:2]
+    fills = []
+    for n in own_nodes(f.node):
+        if isinstance(n, ast.Call) and ast.unparse(n.func).split(".")[-1] in ("zeros_like", "zeros", "new_zeros", "zeros_", "full_like", "full", "empty_like", "empty", "tensor"):
+            fills.append(n)
+    ok = bool(fills)
+    why = "no zero filler found"
+    for c in fills:
+        fn = ast.unparse(c.func).split(".")[-1]
+        kws = {k.arg: ast.unparse(k.value) for k in c.keywords if k.arg}
+        of_input = lambda t: t.startswith(inp + "[")
+        if fn == "zeros_like" and c.args and of_input(ast.unparse(c.args[0])) and "dtype" not in kws and "device" not in kws:
+            continue
+        if fn == "new_zeros" and of_input(ast.unparse(c.func.value)) and "dtype" not in kws and "device" not in kws \
+                and c.args and of_input(ast.unparse(c.args[0])):
+            continue
+        if fn == "zeros" and c.args and of_input(ast.unparse(c.args[0])) and of_input(kws.get("dtype", "")) and kws["dtype"].endswith(".dtype") \
+                and of_input(kws.get("device", "")) and kws["device"].endswith(".device"):
+            continue
+        ok = False
+        why = "filler `%s` does not carry shape, dtype and device of the input tensor" % ast.unparse(c)[:80]
+    if ok:
+        R.ok(f.fq, "None gradients are replaced by zeros with the shape, dtype and device of the corresponding input")
+    else:
+        R.bad(f, enclosing_stmt(fills[0]) if fills else f.node, "convert_none_grads_to_zeros: %s" % why)
+
+
 def ac4_conversion_reference(fc: FnCls, R: RuleResult) -> int:
     """convert_none_grads_to_zeros(g, ref): the zeros replacing None gradients are shaped like `ref`; `ref` must therefore be the
     very list the gradients were taken with respect to (the `inputs` of the autograd.grad that produced g)."""
